@@ -159,6 +159,19 @@ func (f *faultGen) region(parent string, depth int) []Stmt {
 			// a message handler that fails by itself
 			hb = Blk(CallSN("step", Str(parent+":handler-of-"+id)), CallSN("error", Str("Ehandler")))
 			g.cover("region:xpcall-failing-handler")
+		} else if f.opts.ModelSafe && g.R.Intn(3) == 0 {
+			// the handler's result is what the caller receives, whatever it is
+			switch g.R.Intn(4) {
+			case 0:
+				hb = Blk(CallSN("step", Str(parent+":handler-of-"+id)))
+			case 1:
+				hb = Blk(CallSN("step", Str(parent+":handler-of-"+id)), Return(&ENil{}))
+			case 2:
+				hb = Blk(CallSN("step", Str(parent+":handler-of-"+id)), Return(&EFalse{}, N("m")))
+			default:
+				hb = Blk(CallSN("step", Str(parent+":handler-of-"+id)), Return(Str("Hreplaced"), Num(2)))
+			}
+			g.cover("region:xpcall-handler-replaces-the-error")
 		}
 		call = CallN("xpcall", Fn(nil, false, body), &EFunc{F: &Func{Params: []string{"m"}, Body: hb}})
 		g.Fault.Xpcall[id] = true
